@@ -128,6 +128,22 @@ structure Loaded where
 def namesOf (ns : List (Label × Name × Key)) (k : Key) : List (Label × Name) :=
   (ns.filter (fun e => e.2.2 == k)).map (fun e => (e.1, e.2.1))
 
+/-- Python's unary minus on a key (`node = -node`, line 388): `-0 == 0`, so the negation of the constant key TRUE
+    stays TRUE; `-None` raises TypeError — see `loadNnfRaises` (the value returned here for `None` is never used when
+    that predicate is false). -/
+def negKey : Key → Key
+  | some k => some (-k)
+  | none => none
+
+/-- `_load_nnf` raises `TypeError` (`-None`): some line `L -x` whose variable has the weight `False`
+    (`add_atom` returns `None`). `loadNnf` models the cases in which this is `false`. -/
+def loadNnfRaises (c : Circuit) (cnf : CNF) : Bool :=
+  c.any (fun nd => match nd with
+    | .lit name => name < 0 && (match (lookup cnf.weights name.natAbs).getD .neutral with
+        | .ff => true
+        | _ => false)
+    | _ => false)
+
 def loadNnf (c : Circuit) (cnf : CNF) (namesOrdered : List (Label × Name × Key)) : Loaded :=
   let init : Store := { opts := { autoCompact := false } }
   let step (st : Loaded × List Int) (nd : NNode) : Loaded × List Int :=
@@ -137,7 +153,7 @@ def loadNnf (c : Circuit) (cnf : CNF) (namesOrdered : List (Label × Name × Key
       let w := (lookup cnf.weights name.natAbs).getD .neutral
       let pc : PClass := match w with | .tt => .pNone | .ff => .pFalse | _ => .normal
       let (S1, k) := ld.store.addAtom (.user (name.natAbs : Int)) pc w
-      let node : Key := if name < 0 then negate k else k
+      let node : Key := if name < 0 then negKey k else k
       let S2 := if seen.contains name then S1 else
         (namesOf namesOrdered (some name)).foldl (fun S (l, n) => S.addName n node l) S1
       (⟨S2, ld.line2node ++ [node]⟩, name :: seen)
